@@ -23,8 +23,8 @@ mod c18;
 #[cfg(all(kani, feature = "c11"))]
 mod c11;
 
-#[cfg(all(kani, feature = "c06"))]
-mod c06;
-
 #[cfg(all(kani, feature = "c08"))]
 mod c08;
+
+#[cfg(all(kani, any(feature = "c03", feature = "c01")))]
+mod c03;
